@@ -3,6 +3,7 @@ package harness
 import (
 	"fmt"
 	"os"
+	"path/filepath"
 	"runtime"
 	"runtime/debug"
 	"sort"
@@ -118,7 +119,16 @@ func runCaseEx(c *Case) (out *Outcome, classes []string, err error) {
 	if err := os.MkdirAll(dir, 0700); err != nil {
 		return nil, nil, err
 	}
-	defer os.RemoveAll(dir)
+	defer func() {
+		os.RemoveAll(dir)
+		// side directories (durability images, read-only copies) of runs that
+		// were aborted half-way
+		if ms, _ := filepath.Glob(dir + "-*"); ms != nil {
+			for _, m := range ms {
+				os.RemoveAll(m)
+			}
+		}
+	}()
 	e.fs = NewFS(dir, c.Faults)
 	registerFS(e.fs)
 	defer unregisterFS(e.fs)
